@@ -663,7 +663,10 @@ class Translator:
 
     def tr_call(self, v, env):
         callee = v[3]
-        self.visited_calls.add((str(v[1]).split("#")[0], v[2]))
+        fp_ = str(v[1])
+        if self.P.fn(fp_) is None:
+            fp_ = fp_.rsplit("#", 1)[0]
+        self.visited_calls.add((fp_, v[2]))
         if not isinstance(callee, str):
             raise Unsupported("dynamic call")
         if common.is_try_branch(callee):
